@@ -29,6 +29,7 @@ type rsGraph struct {
 
 type rsChoice struct {
 	Ctx      string `json:"ctx"`
+	Kw       string `json:"kw"` // plain | alias | escaped
 	Base     bool   `json:"base"`
 	Embed    bool   `json:"embed"`
 	Wrapper  string `json:"wrapper"`
@@ -45,6 +46,8 @@ type rsCase struct {
 	ID     string   `json:"id"`
 	Graph  rsGraph  `json:"graph"`
 	Choice rsChoice `json:"choice"`
+	// Before: another case validated immediately before this one in the same process (its result is discarded)
+	Before *rsCase `json:"before,omitempty"`
 	WS     int      `json:"ws"`
 }
 
@@ -147,7 +150,7 @@ func (c rsCase) obj(n string, part int) ordObj {
 		ps = ps[half:]
 	}
 	var o ordObj
-	idkv := kv{"@id", c.idForm(n)}
+	idkv := kv{c.kwKey("@id"), c.idForm(n)}
 	var typekv *kv
 	if part != 2 {
 		ts := append([]string{}, g.Types[n]...)
@@ -162,7 +165,7 @@ func (c rsCase) obj(n string, part int) ordObj {
 			}
 			tv = arr
 		}
-		typekv = &kv{"@type", tv}
+		typekv = &kv{c.kwKey("@type"), tv}
 	}
 	var props []kv
 	for _, p := range ps {
@@ -185,7 +188,7 @@ func (c rsCase) obj(n string, part int) ordObj {
 			case c.Choice.Embed && g.Parent[x] == n && g.EmbedPred[x] == p:
 				vs = append(vs, c.obj(x, 0))
 			default:
-				vs = append(vs, ordObj{{"@id", c.idForm(x)}})
+				vs = append(vs, ordObj{{c.kwKey("@id"), c.idForm(x)}})
 			}
 		}
 		if c.Choice.Repeat {
@@ -214,6 +217,16 @@ func (c rsCase) obj(n string, part int) ordObj {
 	return o
 }
 
+// aliased: the keywords @type and @id are written through terms of the context
+func (c rsCase) aliased() bool { return c.Choice.Kw == "alias" && c.Choice.Ctx != "none" && c.Choice.Ctx != "" }
+
+func (c rsCase) kwKey(k string) string {
+	if c.aliased() {
+		return strings.TrimPrefix(k, "@")
+	}
+	return k
+}
+
 func (c rsCase) context() ordObj {
 	var ctx ordObj
 	switch c.Choice.Ctx {
@@ -221,6 +234,9 @@ func (c rsCase) context() ordObj {
 		ctx = append(ctx, kv{"ex", exNS})
 	case "vocab":
 		ctx = append(ctx, kv{"@vocab", exNS})
+	}
+	if c.aliased() {
+		ctx = append(ctx, kv{"type", "@type"}, kv{"id", "@id"})
 	}
 	if c.Choice.Base {
 		ctx = append(ctx, kv{"@base", nodeNS})
@@ -267,6 +283,9 @@ func (c rsCase) render() string {
 			f.Close()
 		}
 		inner := ordObj{{c.refPrefix(), exNS}}
+		if c.aliased() {
+			inner = append(inner, kv{"type", "@type"}, kv{"id", "@id"})
+		}
 		if c.Choice.Base {
 			inner = append(inner, kv{"@base", nodeNS})
 		}
@@ -303,6 +322,10 @@ func (c rsCase) render() string {
 		b, _ = json.MarshalIndent(doc, " \t", "\t")
 		b = append([]byte("\n\n  "), append(b, []byte("\n \n")...)...)
 	}
+	if c.Choice.Kw == "escaped" {
+		// the same keys with the @ written as a JSON escape
+		return strings.ReplaceAll(string(b), "\"@", "\"\\u0040")
+	}
 	return string(b)
 }
 
@@ -320,7 +343,14 @@ warning:
   - pattern-r
   - data-required
   - security-class
+  - no-blank
 validations:
+  no-blank:
+    targetClass: ex.T
+    message: values must not contain a blank
+    propertyConstraints:
+      ex.p | ex.q | ex.r:
+        pattern: "^[^ ]*$"
   data-required:
     targetClass: ex.T
     message: data required
@@ -390,6 +420,17 @@ func runReser(c rsCase) (o rsObs) {
 			o.Err = fmt.Sprint("panic: ", r)
 		}
 	}()
+	if c.Before != nil {
+		// the twin document first, through both validating entry points; whatever it leaves behind must not matter
+		bt := c.Before.render()
+		func() {
+			defer func() { recover() }()
+			pkg.ValidateWithConfiguration(reserProfile, bt, false, nil, clockA, config.DefaultReportConfiguration())
+			if h, err := pkg.CompileProfile(reserProfile, false, nil); err == nil {
+				pkg.ValidateCompiled(h, bt, false, nil)
+			}
+		}()
+	}
 	text := c.render()
 	o.Text = text
 	idx, err := verifexport.ProcessInput(text)
